@@ -1,21 +1,24 @@
 """Deterministic cooperative line-level scheduler for real athlib code (C16).
 
 Every thread runs under sys.settrace; each `line` event on a *visible* line of a file inside
-athlib/ is a yield point: the thread parks until the controller grants it the next step.  Exactly
-one thread is granted at a time, so a *schedule* (sequence of (thread, number of steps) segments)
-determines the interleaving at source-line granularity.
+athlib/ is a yield point: the controller releases one thread at a time with a budget of steps; the
+thread counts and logs its own steps (snapshot of the shared state before each line) and parks again
+when the budget is used up, so a *schedule* (sequence of (thread, number of steps) segments)
+determines the interleaving at source-line granularity without a hand-off per line.
 
 Visible lines are found by AST: lines that touch `self.<attr>` or a module-level (global) name.
 Steps on purely local state commute, so switching only at visible lines loses no behaviour.
 
-A granted thread that does not come back within BLOCK_TIMEOUT is taken to be blocked on a lock
-held by a parked thread; the controller then runs another thread.  Imprecision here can only
-change *which* real interleaving is executed, never fabricate one (no false alarms).
+A granted thread that does not come back within BLOCK_TIMEOUT *and* sits on a source line that takes a
+lock (or has not come back after SLOW_LIMIT) is taken to be blocked on a lock held by a parked thread;
+the controller then runs another thread.  Imprecision here can only change *which* real interleaving
+is executed, never fabricate one (no false alarms).
 """
 import sys, os, ast, threading, queue, time
 
 BLOCK_TIMEOUT = 0.03
-WATCHDOG = 20.0
+SLOW_LIMIT = 10.0
+WATCHDOG = 90.0
 
 _visible_cache = {}
 
@@ -80,13 +83,24 @@ class Controlled(object):
         self.status = ['ready'] * self.n      # parked before the first line
         self.results = [None] * self.n
         self.where = [('start', 0)] * self.n
+        # budget[i]: how many more steps thread i may take before it parks again (None: run to completion).
+        # Exactly one thread is released at a time, so a running thread logs its own steps: no hand-off per line.
+        self.budget = [0] * self.n
         self.snapshot = snapshot
-        self.trace = []                       # (tid, file:line, snapshot)
+        self.trace = []                       # (tid, file:line, snapshot before the line runs)
         self.threads = [threading.Thread(target=self._body, args=(i,), daemon=True) for i in range(self.n)]
 
     # ---- thread side
+    def _step(self, i):
+        """Account for and log the step that is about to run at self.where[i]."""
+        b = self.budget[i]
+        if b is not None:
+            self.budget[i] = b - 1
+        self.trace.append((i, '%s:%d' % self.where[i], self.snapshot() if self.snapshot else ''))
+
     def _body(self, i):
         self.go[i].acquire()
+        self._step(i)
         sys.settrace(self._make_tracer(i))
         try:
             r = ('ok', self.fns[i]())
@@ -106,8 +120,11 @@ class Controlled(object):
                 vis = None if self.all_lines else visible_lines(fn)
                 if vis is None or frame.f_lineno in vis:
                     self.where[i] = (os.path.basename(fn), frame.f_lineno)
-                    self.events.put((i, 'ready'))
-                    self.go[i].acquire()
+                    b = self.budget[i]
+                    if b is not None and b <= 0:
+                        self.events.put((i, 'ready'))
+                        self.go[i].acquire()
+                    self._step(i)
             return local
 
         def glob(frame, event, arg):
@@ -117,24 +134,38 @@ class Controlled(object):
         return glob
 
     # ---- controller side
-    def _grant(self, i):
-        """Let thread i run one step. Returns 'ready' | 'done' | 'blocked'."""
+    def _grant(self, i, steps=1):
+        """Let thread i run `steps` steps (None: to completion). Returns 'ready' | 'done' | 'blocked'."""
         self.status[i] = 'running'
-        if self.snapshot:
-            self.trace.append((i, '%s:%d' % self.where[i], self.snapshot()))
-        else:
-            self.trace.append((i, '%s:%d' % self.where[i], ''))
+        self.budget[i] = steps
         self.go[i].release()
-        deadline = time.time() + BLOCK_TIMEOUT
+        t0 = time.time()
         while True:
             try:
-                j, what = self.events.get(timeout=max(0.0, deadline - time.time()))
+                j, what = self.events.get(timeout=BLOCK_TIMEOUT)
             except queue.Empty:
-                self.status[i] = 'blocked'
-                return 'blocked'
+                # not back yet: blocked on a lock held by a parked thread, or merely busy (long call, loaded machine)?
+                # Running another thread while this one is still running would break line granularity, so it is only
+                # given up when it sits on a line that takes a lock, or after SLOW_LIMIT.
+                if self._waits_for_lock(i) or time.time() - t0 > SLOW_LIMIT:
+                    self.budget[i] = 0          # it parks at its next line once it gets going again
+                    self.status[i] = 'blocked'
+                    return 'blocked'
+                continue
             self.status[j] = what
             if j == i:
                 return what
+
+    def _waits_for_lock(self, i):
+        import linecache
+        f = sys._current_frames().get(self.threads[i].ident)
+        while f is not None:
+            fn = f.f_code.co_filename
+            if fn.startswith(self.root):
+                text = linecache.getline(fn, f.f_lineno)
+                return 'lock' in text.lower() or 'acquire' in text
+            f = f.f_back
+        return False
 
     def _drain(self, timeout):
         try:
@@ -147,36 +178,28 @@ class Controlled(object):
     def run(self, segments):
         """segments: list of (tid, steps or None).  After the segments every unfinished thread is
         run to completion, lowest tid first.  Returns (results, executed) where executed is the
-        list of tids in the order their steps were actually granted."""
+        list of tids in the order their steps were actually taken."""
         for t in self.threads:
             t.start()
         t0 = time.time()
-        executed = []
         plan = list(segments) + [(i, None) for i in range(self.n)]
         for tid, steps in plan:
-            k = 0
-            while steps is None or k < steps:
-                if time.time() - t0 > WATCHDOG:
-                    raise RuntimeError('scheduler watchdog: no progress (status %s)' % self.status)
-                while self._drain(0):
-                    pass
-                if self.status[tid] != 'ready':
-                    break
-                executed.append(tid)
-                r = self._grant(tid)
-                k += 1
-                if r != 'ready':
-                    break
+            if time.time() - t0 > WATCHDOG:
+                raise RuntimeError('scheduler watchdog: no progress (status %s)' % self.status)
+            while self._drain(0):
+                pass
+            if self.status[tid] != 'ready' or steps == 0:
+                continue
+            self._grant(tid, steps)
         # leftovers: threads that were blocked when their turn came
         while any(s != 'done' for s in self.status):
             if time.time() - t0 > WATCHDOG:
                 raise RuntimeError('scheduler watchdog: threads never finished (status %s)' % self.status)
             ready = [i for i in range(self.n) if self.status[i] == 'ready']
             if ready:
-                executed.append(ready[0])
-                self._grant(ready[0])
+                self._grant(ready[0], None)
             else:
                 self._drain(0.05)
         for t in self.threads:
             t.join(timeout=5)
-        return self.results, executed
+        return self.results, [t for t, _, _ in self.trace]
